@@ -1567,6 +1567,8 @@ class Engine:
             return [(st, V('func', py=('spec', enc)))]
         if obj.k in ('int', 'real', 'bool', 'none', 'bytes', 'tuple', 'list') and name == 'encode':
             return [(st, Raised(self.make_exc('AttributeError', node=node)))]
+        if obj.k == 'obj' and name in ('__name__', '__qualname__'):
+            return [(st, V('str', z=self.fresh('name', z3.StringSort())))]
         if obj.k == 'obj' and not name.startswith('__'):
             # attribute of an opaque object: another opaque object
             sub = '%s.%s' % (obj.oid, name)
